@@ -79,7 +79,7 @@ build_q() {
 # conformance of the instrumenter: with the pass-through runtime the instrumented
 # package must pass the repository's own root-package tests.
 sched_conformance() {
-  ( cd "$REPO" && go test -overlay "$BUILD/overlay-sched.json" -tags verif -vet=off -count=1 . ) > "$BUILD/conformance.log" 2>&1
+  ( cd "$REPO" && go test -overlay "$BUILD/overlay-sched.json" -tags verif -vet=off -count=1 . ./persist/file/ ) > "$BUILD/conformance.log" 2>&1
 }
 
 # run_guarded <id> <cmd...>: runs a check; if the exploring process itself dies
